@@ -2,6 +2,7 @@ import Driver.SeqDrv
 import Driver.SmallDrv
 import Driver.SortDrv
 import Driver.SetDrv
+import Driver.AssocDrv
 open Lean Drv
 
 def handle (line : String) : String :=
@@ -14,6 +15,8 @@ def handle (line : String) : String :=
     | "iter" => iterLine j
     | "sort" => sortLine j
     | "set" => setLine j
+    | "map" => mapLine j
+    | "cat" => catLine j
     | k => verdict false true "bad-kind" k
 
 partial def loop (h : IO.FS.Stream) (out : IO.FS.Stream) : IO Unit := do
